@@ -1,9 +1,9 @@
 #!/bin/bash
-# usage: tools/intake.sh <ID> <mN> [lane]  - confirms a sub-agent's change from /tmp/r3/<ID>/out/<mN>/ (verify_seeded.sh),
+# usage: tools/intake.sh <ID> <mN> [lane]  - confirms a sub-agent's change from ${ROUND_DIR:-/tmp/r3}/<ID>/out/<mN>/ (verify_seeded.sh),
 # stores it under seeded/<ID>-<mN>/ and runs the quick check of its property against it (scratch worktree, VERIF_REPO).
 set -u
 ID=$1; M=$2; LANE=${3:-i}
-SRC=/tmp/r3/$ID/out/$M
+SRC=${ROUND_DIR:-/tmp/r3}/$ID/out/$M
 WT=/tmp/mutv$LANE
 export WT
 /verif/tools/verify_seeded.sh $ID $M $SRC/patch.diff $SRC/demo.py $SRC/notes.md || { echo "$ID-$M: NOT CONFIRMED"; exit 1; }
